@@ -115,7 +115,7 @@ def check_wsgi(P, R):
         cp = compare_parts(p)
         if cp and cp[1] is ast.In and '_status_code' in src(cp[0]):
             try:
-                codes = set(T.peval(cp[2]))
+                codes = set(T.ceval(f, cp[2]))
             except T.CannotEval:
                 codes = None
     okc = codes is not None and {100, 101, 204, 304} <= codes
@@ -186,7 +186,7 @@ def check_handle(P, R):
     for k, v in cls_.attrs.items():
         if 'hook_reversed' in k:
             try:
-                rev = set(T.peval(v))
+                rev = set(T.ceval(cls_, v))
             except T.CannotEval:
                 rev = None
     R.ob('C03.b', cls_.fq, None, rev == {'after_request'}, text=f'reversed hook set = {rev}', detail='' if rev == {'after_request'} else
@@ -345,7 +345,7 @@ def iter_value_ok(f, d):
     if isinstance(v, ast.GeneratorExp):
         e = v.elt
         if isinstance(e, ast.Call) and call_attr(e) == 'encode':
-            chains = [x for x in ast.walk(v) if isinstance(x, ast.Call) and dotted(x.func) in ('itertools.chain', 'chain')]
+            chains = [x for x in ast.walk(T.expand(f, v.generators[0].iter, d.node)) if isinstance(x, ast.Call) and dotted(x.func) in ('itertools.chain', 'chain')]
             for ch in chains:
                 a0 = ch.args[0] if ch.args else None
                 if isinstance(a0, ast.List) and len(a0.elts) == 1 and isinstance(a0.elts[0], ast.Name):
